@@ -38,6 +38,7 @@ def gen(run_seed: int, tier: str) -> dict:
     t = Tape(seed=run_seed)
     nh = 4 + t.draw(6, "healthy")
     world = cpool.gen_world(t, nh)
+    world.pop("meta", None)
     offenders = []
     heavy_used = False
     allow_blowup = t.chance(1, 3, "blowup_run") or bool(os.environ.get("VSIM_C11_FORCE_BLOWUP"))
